@@ -172,6 +172,9 @@ class ProgGen:
     def dice_term(self):
         r = self.r
         k = r.random()
+        if k < 0.08:
+            # omitted sides: the default-sides expression (push.def_expr reads the die's own text)
+            return "(" + r.choice(["d", "3d", "d优势", "d劣势", "2d", "dk", "3dk2", "(2)d"]) + ")"
         if k < 0.55:
             t = r.choice(["", "2", "3", "4"])
             s = f"{t}d{r.choice([4, 6, 8, 20, 100])}"
